@@ -383,7 +383,7 @@ func runChild(prop, tier, only, resultPath string, seed int) {
 		}
 		res.Bounds["unroll"] = fmt.Sprint(e.unroll)
 		if v := e.cfg["horizon"]; v != "" {
-			res.Bounds["horizon_ns"] = v + " (the modelled run is shorter than this: tickers/timers with a constant period/delay of at least the horizon never deliver)"
+			res.Bounds["horizon_ns"] = v + " (the modelled run is shorter than this: tickers, timers and context deadlines with a constant period/delay of at least the horizon never deliver)"
 		}
 		if v := e.cfg["timers"]; v != "" {
 			res.Bounds["timers"] = v + " (every timer/ticker event carries an instant; k-th tick not before arming + k*period; Go <= 1.22 buffered timer values)"
